@@ -6,6 +6,7 @@
 //	topics <hex,hex,…>                      topic universe the upstream knows
 //	conn <ttl s> <max entries> <allow hex,…|-> <deny hex,…|->   new proxy + client connection
 //	q <hex text>                            simple-protocol query
+//	acl <allow hex,…|-> <deny hex,…|-> <topic hex>   the real ACL (matchPatterns / Allows / AllowShowTopics) on one topic
 //
 // Output per `q`: `fwd <hex of the text the upstream received> reads=<topic hex,…|-> listed=<0|1>
 // plan=<topic hex,…|-> desc=<topic hex,…|-> err=<0|1>` or `deny`.
@@ -230,7 +231,7 @@ func decodeList(s string) ([]string, error) {
 	}
 	var out []string
 	for _, h := range strings.Split(s, ",") {
-		if h == "-" { // an empty element
+		if h == "-" || h == "~" { // an empty element (`~`: unambiguous also for a one-element list)
 			out = append(out, "")
 			continue
 		}
@@ -326,6 +327,22 @@ func main() {
 			cur = s
 			rec.take()
 			fmt.Fprintln(w, "conn")
+		case f[0] == "acl" && len(f) == 4:
+			allow, e1 := decodeList(f[1])
+			deny, e2 := decodeList(f[2])
+			topic, e3 := hex.DecodeString(f[3])
+			if e1 != nil || e2 != nil || (e3 != nil && f[3] != "-") {
+				fmt.Fprintln(w, "bad-op")
+				continue
+			}
+			b := func(v bool) int {
+				if v {
+					return 1
+				}
+				return 0
+			}
+			ma, md, al, sh := proxy.VerifACLProbe(allow, deny, string(topic))
+			fmt.Fprintf(w, "acl ma=%d md=%d allows=%d show=%d\n", b(ma), b(md), b(al), b(sh))
 		case f[0] == "q" && len(f) == 2 && cur != nil:
 			text, err := hex.DecodeString(f[1])
 			if err != nil && f[1] != "-" {
